@@ -108,7 +108,7 @@ class Trace:
     def arrays(self):
         self.tsc_a = np.asarray(self.tsc, dtype=int)
         self.season_a = np.asarray(self.season_before, dtype=int)
-        self.th_before_a = np.asarray(self.th_before, dtype=float).reshape(self.n, -1)
+        self.th_before_a = np.asarray(self.th_before, dtype=float).reshape(self.n, -1) if self.n else np.zeros((0, 0))
         self.ss_before_a = np.asarray(self.ss_before, dtype=float)
         return self
 
@@ -226,7 +226,7 @@ def run_observed(cfg, capture=(), weather_df=None, model=None, step_hook=None, m
         initialize(m)
     except Exception as e:  # classified by the caller
         tr.init_error = e
-        return tr
+        return tr.arrays()
     ck = m._clock_struct
     limit = len(ck.time_span) + 1
     tr.profile = snapshot_profile(m)
